@@ -67,10 +67,31 @@ def _contract(params, job):
     import gasol_asm
     import sfs_generator.ir_block as ir_block
     from sfs_generator.parser_asm import parse_asm
-    path, fault = job
+    path, fault = job[0], job[1]
+    site = job[2] if len(job) > 2 else "analysis"       # analysis | backend | backend-mid
     params.input_file = path
     calls = {"n": 0}
-    if fault is not None:
+    orig_ob = gasol_asm.optimize_block
+    if fault is not None and site != "analysis":
+        # the search/rebuild stage raises for the sub-blocks of one block, at the call or after the first
+        # sub-block has been optimized: Model/Contain.v backend b s = Raise (theorems backend_failure_kept,
+        # backend_fault_local)
+        def faulty_ob(sfs_dict, params_):
+            hit = any(k == fault or k.rsplit("_", 1)[0] == fault for k in sfs_dict)
+            if not hit:
+                yield from orig_ob(sfs_dict, params_)
+                return
+            calls["n"] += 1
+            if site == "backend-mid":
+                for n, item in enumerate(orig_ob(sfs_dict, params_)):
+                    yield item
+                    break
+            raise Exception("injected back-end failure", 5)
+        gasol_asm.optimize_block = faulty_ob
+        fault_analysis = None
+    else:
+        fault_analysis = fault
+    if fault_analysis is not None:
         orig = ir_block.evm2rbr_compiler
 
         def faulty(*a, **kw):
@@ -93,7 +114,8 @@ def _contract(params, job):
                 for b in newc.get_run_code(ident):
                     res["%s|%s|%s" % (c.contract_name, ident, b.block_name)] = b.to_plain()
     finally:
-        if fault is not None:
+        gasol_asm.optimize_block = orig_ob
+        if fault_analysis is not None:
             ir_block.evm2rbr_compiler = orig       # the worker process is reused for the next job
     orig_blocks = {}
     for c in asm.contracts:
@@ -180,38 +202,44 @@ def check(run):
             rng.shuffle(names)
             for nm in names[:(8 if quick else 25)]:
                 jobs.append((p, nm.split("|")[-1]))
-                meta.append((p, nm, val))
+                meta.append((p, nm, val, "analysis"))
+            for i, nm in enumerate(names[:(6 if quick else 20)]):
+                site = "backend" if i % 2 == 0 else "backend-mid"
+                jobs.append((p, nm.split("|")[-1], site))
+                meta.append((p, nm, val, site))
         res = gasol.pmap(_contract, jobs, init=pipeline._init, initargs=(["-greedy"],), timeout=900)
-        for (p, nm, basev), (st, val) in zip(meta, res):
+        for (p, nm, basev, site), (st, val) in zip(meta, res):
             evaluations += 1
+            tag = "fault" if site == "analysis" else "fault-" + site
             if st != "ok":
-                dist["fault:" + st] += 1
-                run.report({"kind": "fault-not-contained", "outcome": st},
-                           "analysis failure injected at block %s of %s is not contained: %s %s" % (nm, os.path.basename(p), st, str(val)[:200]),
-                           {"input": os.path.basename(p), "block": nm, "outcome": st, "detail": str(val)[:500]}, True)
+                dist[tag + ":" + st] += 1
+                run.report({"kind": "fault-not-contained", "outcome": st, "site": site},
+                           "%s failure injected at block %s of %s is not contained: %s %s" % (site, nm, os.path.basename(p), st, str(val)[:200]),
+                           {"input": os.path.basename(p), "block": nm, "site": site, "outcome": st, "detail": str(val)[:500]}, True)
                 continue
             if val["fault_calls"] == 0:
-                dist["fault:not-reached"] += 1
+                dist[tag + ":not-reached"] += 1
                 continue
-            dist["fault:contained"] += 1
+            dist[tag + ":contained"] += 1
             bname = nm.split("|")[-1]
             for k in basev["out"]:
                 same_name = k.split("|")[-1] == bname
                 if same_name:
                     if val["out"].get(k) != basev["orig"].get(k):
-                        run.report({"kind": "faulty-block-not-kept"}, "block %s is not emitted unchanged after an analysis failure" % k,
-                                   {"input": os.path.basename(p), "block": k, "orig": basev["orig"].get(k), "out": val["out"].get(k)}, True)
+                        run.report({"kind": "faulty-block-not-kept", "site": site}, "block %s is not emitted unchanged after an injected %s failure" % (k, site),
+                                   {"input": os.path.basename(p), "block": k, "site": site, "orig": basev["orig"].get(k), "out": val["out"].get(k)}, True)
                 elif val["out"].get(k) != basev["out"].get(k):
-                    run.report({"kind": "fault-affects-other-block"},
-                               "analysis failure at %s changed block %s" % (nm, k),
-                               {"input": os.path.basename(p), "fault_at": nm, "block": k, "fault_free": basev["out"].get(k), "with_fault": val["out"].get(k)}, True)
+                    run.report({"kind": "fault-affects-other-block", "site": site},
+                               "%s failure at %s changed block %s" % (site, nm, k),
+                               {"input": os.path.basename(p), "fault_at": nm, "site": site, "block": k, "fault_free": basev["out"].get(k), "with_fault": val["out"].get(k)}, True)
     finally:
         import shutil
         shutil.rmtree(work, ignore_errors=True)
     run.cov["evaluations"] = evaluations
-    run.cov["distinct_nontrivial"] = len(set(texts)) + dist["fault:contained"]
+    run.cov["distinct_nontrivial"] = len(set(texts)) + dist["fault:contained"] + dist["fault-backend:contained"] + dist["fault-backend-mid:contained"]
     run.cov["rule"] = ("per-block pipeline runs under rlimits (distinct block texts incl. boundary constants, NOT NOT, ISZERO chains, "
-                       "17+ live values) and per-contract runs with an injected analysis failure at one block")
+                       "17+ live values) and per-contract runs with an injected failure at one block: in the analysis, at the call of the "
+                       "search/rebuild stage, or after its first sub-block")
     run.cov["distribution"] = dict(dist)
     run.add_sample({"hard_blocks": HARD_BLOCKS[:6], "budget": {"cpu_s": CPU_BUDGET, "rss_kb": RSS_BUDGET_KB}})
 
